@@ -223,7 +223,14 @@ type dupProp struct {
 func (s *SpecValidator) validateDuplicatePropertyNames() *Result {
 	// definition can't declare a property that's already defined by one of its ancestors
 	res := pools.poolOfResults.BorrowResult()
-	for k, sch := range s.spec.Spec().Definitions {
+	definitions := s.spec.Spec().Definitions
+	names := make([]string, 0, len(definitions))
+	for k := range definitions {
+		names = append(names, k)
+	}
+	sort.Strings(names) // the loop returns at the first circular ancestry: what was checked before must not depend on map order
+	for _, k := range names {
+		sch := definitions[k]
 		if len(sch.AllOf) == 0 {
 			continue
 		}
